@@ -98,6 +98,18 @@ def build_mm(case):
         data = TBRMMData(df, 'sales', ge)
     except Exception as e:
         raise DataStageError(e)
+    prior = case.get('prior')
+    if prior:
+        # Start from a NON-initial state of the data object: another matched-markets object built on the SAME data
+        # object (other parameters, window not shorter than this case's) has already been used.
+        mm0 = TBRMatchedMarkets(data, params(prior['kw']))
+        try:
+            if prior['op'] == 'geo_assignments':
+                mm0.geo_assignments
+            else:
+                getattr(mm0, prior['op'])()
+        except ValueError:
+            pass
     return TBRMatchedMarkets(data, par), par
 
 
